@@ -196,6 +196,11 @@ impl<W: WorldSpec> Engine<W> {
                 }
             }
         }
+        // clone reads every column through a runtime borrow: all of them must be free again,
+        // after a normal return and after unwinding (C11)
+        if !rt::has_violation() {
+            self.check_all_released(wid, "World::clone");
+        }
     }
 
     /// F8: the world is dropped at an arbitrary step, optionally with F3 (panic from the k-th Drop).
@@ -639,6 +644,10 @@ impl<W: WorldSpec> Engine<W> {
                 }
             }
         }
+        if !rt::has_violation() {
+            self.check_all_released(src, "clone_from (source)");
+            self.check_all_released(dst, "clone_from (destination)");
+        }
         let save = self.cur;
         self.cur = dst;
         self.audit_step(true);
@@ -966,6 +975,9 @@ impl<W: WorldSpec> Engine<W> {
                 self.stats.inc("archetype_clone_replace");
             }
             Err(c) => vio("C10", "unexpected-panic", format!("Archetype::clone panicked: {}", c.msg)),
+        }
+        if !rt::has_violation() {
+            self.check_all_released(wid, "Archetype::clone");
         }
     }
 
